@@ -25,6 +25,26 @@ def roundtrip(self, obj, context, path, tail):
     assert s2.tell() == len(data), "parse consumes exactly the built bytes"
 
 
+def roundtrip_list(self, obj, context, path, tail, j):
+    """C01 for constructs whose value is a list (list equality is element-wise equality of equally long lists; j is an
+    arbitrary index): parsing the built bytes followed by arbitrary data yields as many elements as build returned, each equal
+    to what its build returned, and consumes exactly the built bytes"""
+    s = io.BytesIO()
+    try:
+        r = self._build(obj, s, context, path)
+    except Exception:
+        return
+    data = s.getvalue()
+    whole = data + tail
+    lemma_hints(self, obj, data, whole)
+    s2 = io.BytesIO(whole)
+    v = self._parse(s2, context, path)
+    assert len(v) == len(r), "parse returns as many elements as build returned"
+    if 0 <= j < len(v):
+        assert v[j] == r[j], "each parsed element equals what its build returned"
+    assert s2.tell() == len(data), "parse consumes exactly the built bytes"
+
+
 def roundtrip_greedy(self, obj, context, path):
     """C01 for constructs that read to the end of the stream: the built bytes alone parse back"""
     s = io.BytesIO()
